@@ -117,17 +117,17 @@ Record cfg (S : Type) := mkcfg {
   tag_attrs : list (str * str); attr_name : str; attr_value : str; comment : str;
   dt_name : option str; dt_pub : option str; dt_sys : option str; dt_quirks : bool;
   pi_target : str; pi_data : str;
-  last_start : option str; cref : option crt; line : N; exact : bool }.
+  last_start : option str; cref : option crt; line : N }.
 Arguments mkcfg {S}. Arguments st {S}. Arguments reconsume {S}. Arguments cur {S}. Arguments ignore_lf {S}.
 Arguments discard_bom {S}. Arguments at_eof {S}. Arguments temp_buf {S}. Arguments tag_kind {S}.
 Arguments tag_name {S}. Arguments tag_self {S}. Arguments tag_dup {S}. Arguments tag_attrs {S}.
 Arguments attr_name {S}. Arguments attr_value {S}. Arguments comment {S}. Arguments dt_name {S}.
 Arguments dt_pub {S}. Arguments dt_sys {S}. Arguments dt_quirks {S}. Arguments pi_target {S}.
-Arguments pi_data {S}. Arguments last_start {S}. Arguments cref {S}. Arguments line {S}. Arguments exact {S}.
+Arguments pi_data {S}. Arguments last_start {S}. Arguments cref {S}. Arguments line {S}.
 #[export] Instance eta_cfg {S} : Settable (cfg S) :=
   settable! (@mkcfg S) <st; reconsume; cur; ignore_lf; discard_bom; at_eof; temp_buf; tag_kind; tag_name; tag_self;
     tag_dup; tag_attrs; attr_name; attr_value; comment; dt_name; dt_pub; dt_sys; dt_quirks; pi_target; pi_data;
-    last_start; cref; line; exact>.
+    last_start; cref; line>.
 
 (* machine = configuration + input queue + tokens delivered so far (newest first, with line) *)
 (* [mcons] is a ghost counter (never read by the semantics): characters taken from the input stream so far,
@@ -161,6 +161,7 @@ Variable Qpushb : Q -> list N -> Q.       (* push_back *)
 Variable Qflat : Q -> list N.
 Variable Qrun : (N -> bool) -> Q -> list N * Q.   (* longest run of non-[stop] characters the queue hands out at once *)
 Variable fl : flavour S.
+Variable exact_errors : bool.             (* TokenizerOpts::exact_errors: constant for the life of a tokenizer *)
 Variable tb : table S.
 Variable simd : list N * list N * list N.      (* html Data state: (first-char guard, stop set, newline) ; xml: unused *)
 Variable ent : list N -> option (N * N).        (* web_atoms::NAMED_ENTITIES.get *)
@@ -207,7 +208,7 @@ Definition gpc_decide (html ex : bool) (c : N) : N * bool * bool * bool :=
   let c2 := if negb html && (c1 =? 0) then REPL else c1 in
   (c2, is_cr, html && (c1 =? LF), ex && bad_char c2).
 Definition gpc_post (c : N) (m1 : M) : N * M :=
-  let '(c', set_il, inc_line, report) := gpc_decide (f_html fl) (exact (mc m1)) c in
+  let '(c', set_il, inc_line, report) := gpc_decide (f_html fl) exact_errors c in
   let m2 := if set_il then upd (fun x => x <| ignore_lf := true |>) m1 else m1 in
   let m3 := if inc_line then upd (fun x => x <| line ::= N.add 1 |>) m2 else m2 in
   let m4 := if report then err m3 else m3 in
@@ -247,7 +248,7 @@ Definition discard_ws (c : N) (m : M) : M :=
 Inductive popres := PopNone | PopChar (c : N) | PopRun (r : list N).
 
 Definition pop_except_from (set : list N) (use_simd : bool) (m : M) : popres * M :=
-  if exact (mc m) || reconsume (mc m) || ignore_lf (mc m) then
+  if exact_errors || reconsume (mc m) || ignore_lf (mc m) then
     match get_char m with (None, m') => (PopNone, m') | (Some c, m') => (PopChar c, m') end
   else
     match Qpeek (mq m) with
@@ -761,8 +762,8 @@ Definition fq_run1 (stop : N -> bool) (q : list N) : list N * list N :=
   match q with [] => ([], []) | c :: t => if stop c then ([], q) else ([c], t) end.
 Definition drive_flat {S} := @drive S (list N) [] fq_next fq_peek (@app N) (@app N) (fun q => q) fq_run1.
 
-Definition init_cfg {S} (s0 : S) (last : option str) (ex bom : bool) : cfg S :=
-  mkcfg s0 false 0 false bom false [] TStartTag [] false false [] [] [] [] None None None false [] [] last None 1 ex.
+Definition init_cfg {S} (s0 : S) (last : option str) (bom : bool) : cfg S :=
+  mkcfg s0 false 0 false bom false [] TStartTag [] false false [] [] [] [] None None None false [] [] last None 1.
 
 (* ------------------------------------------------------------------ the two flavours *)
 Definition html_flavour : flavour hstate := {|
